@@ -617,7 +617,10 @@ def check_texts(ctx, cases, st, tag, debug_subset=None, model_applies=True):
                 continue
             if im.kind in ("crash", "panic"):
                 judge(ctx, fam + ":debug", s, im, model[i], st, model_applies)
-            elif r.kind in ("ok", "err") and (im.kind, im.msgs) != (r.kind, r.msgs):
+            elif r.kind in ("ok", "err") and (im.kind, im.msgs[:1], len(im.msgs)) != (r.kind, r.msgs[:1], len(r.msgs)) or \
+                    (r.kind in ("ok", "err") and im.msgs != r.msgs and not any("attribute" in m for m in im.msgs + r.msgs)):
+                # messages after the first may legitimately differ between two processes when attributes are involved
+                # (HashMap iteration order of check_supported_attributes after a recovery)
                 st["corr"].append("debug and release builds disagree on %r: %r vs %r" % (s[:200], im, r))
     return impl, model
 
